@@ -360,6 +360,18 @@ def check_c10(A: Analysis) -> Dict[str, Any]:
         nxt = [bp for bi, bp in boundary_proc if bi >= i]
         if not nxt or p[0] > nxt[0]:
             raise Violation("C10.processing_deadline", f"{type(l).__name__} written at item {i} was not processed by the next session boundary")
+    # the handlers receive the queued records in the order in which they were handed to the logger, each through the handler
+    # of its own type
+    for k, kw in items:
+        if k == "log.process" and kw.get("handler") != type(kw["log"]).__name__:
+            raise Violation("C10.processing", f"{type(kw['log']).__name__} reached the handler for {kw.get('handler')}")
+    direct_ids = {id(l) for _, k, l in kinds if k == "log.direct"}
+    handed = [id(l) for _, k, l in kinds if k != "log.direct"]
+    handled = [id(kw["log"]) for k, kw in items if k == "log.process" and id(kw["log"]) not in direct_ids]
+    if handed != handled:
+        n = next((j for j, (a, b) in enumerate(zip(handed, handled)) if a != b), min(len(handed), len(handled)))
+        raise Violation("C10.order_of_records", f"the logger's handlers receive the records in a different order than they were handed over "
+                                                 f"(first difference at record {n} of {len(handed)})")
     n_cancel = len(d_cancels)
     rounds = A.rounds()
     return {"orders": len(d_orders), "cancels": n_cancel, "fills": len(d_execs), "expiries": len(d_expire),
